@@ -10,6 +10,7 @@ theorem depthGS_pos (st : Stmt) : 1 ≤ Frag.depthGS st := by
   case exprS sp e =>
     cases e <;> try (simp [Frag.depthGS]; done)
     case ifE isp ty c t el => cases el <;> simp [Frag.depthGS]
+    case assign asp op l r => cases l <;> simp [Frag.depthGS]
     case matchE msp ty c arms dflt =>
       cases dflt with
       | none => simp [Frag.depthGS]
